@@ -144,7 +144,7 @@ def run(ctx, report: Report) -> None:
                          f'internal prefix map and iframe restriction, and skipped in XML)')
 
     # ---- R5 ----------------------------------------------------------------------------------------------
-    r5 = report.rule('C05-R5', 'comma resets per-alternative state; implied universal selector (parsed token sequences)', floor=8)
+    r5 = report.rule('C05-R5', 'comma resets per-alternative state; implied universal selector (parsed token sequences)', floor=5)
     from .sem import comma_tables, implied_universal_tables
     comma_tables(ctx, r5)
     implied_universal_tables(ctx, r5)
@@ -162,7 +162,7 @@ def run(ctx, report: Report) -> None:
     list_union_table(ctx, r6, deep=(ctx.tier == 'thorough'))
 
     # ---- R7 (the whole pipeline by interpretation, bounded) --------------------------------------------------------------
-    r7 = report.rule('C05-R7', 'union / complement / intersection laws on reference trees (whole pipeline; bounded)', floor=4)
+    r7 = report.rule('C05-R7', 'union / complement / intersection laws on reference trees (whole pipeline; bounded)', floor=2)
     from .e2ematch import boolean_algebra_table
     boolean_algebra_table(ctx, r7, deep=(ctx.tier == 'thorough'))
 
